@@ -56,6 +56,27 @@ StringAt(dblock, dlen, doff) ==
     LET dhits == {dk \in 1..Len(dblock) : BlockOffsets(dblock, dlen)[dk] = doff}
     IN IF dhits = {} THEN -1 ELSE dblock[CHOOSE dk \in dhits : TRUE]
 
+\* ---- string references at every kind of offset the format allows ------------------------------------
+\* A reference is a byte offset into the block; it need not be the start of a stored string: it may point
+\* inside one (suffix sharing: "City" inside "Stormwind City"), at a terminating NUL (the empty string), at
+\* offset 0, or at the last byte of the block.  Locate gives <<k, skip>>: the k-th string of the block, skip
+\* bytes in (skip = length: the terminator); the text is the suffix of string k from skip.
+RefKinds == {"start", "inside", "nul", "zero", "last"}
+Locate(dblock, dlen, doff) ==
+    LET dofs == BlockOffsets(dblock, dlen)
+        dk == CHOOSE dkk \in 1..Len(dblock) : dofs[dkk] <= doff /\ doff <= dofs[dkk] + dlen[dblock[dkk]]
+    IN <<dk, doff - dofs[dk]>>
+\* the offset a reference of a given kind to the k-th string uses (dskip only matters for "inside")
+RefOffsetOfKind(dblock, dlen, dk, dkind, dskip) ==
+    LET dofs == BlockOffsets(dblock, dlen) IN
+    CASE dkind = "start"  -> dofs[dk]
+      [] dkind = "inside" -> dofs[dk] + dskip
+      [] dkind = "nul"    -> dofs[dk] + dlen[dblock[dk]]
+      [] dkind = "zero"   -> 0
+      [] dkind = "last"   -> BlockSize(dblock, dlen) - 1
+\* length of the text a reference resolves to
+RefTextLen(dblock, dlen, doff) == LET dl == Locate(dblock, dlen, doff) IN dlen[dblock[dl[1]]] - dl[2]
+
 \* ---- routes: every public way of reaching record i through the lazy iterator --------------------------
 \* A route is [kind, a, b]; RouteIdx gives the 0-based record indices it must yield, in order, on a table of
 \* dn records.  (LazyRecordIterator is a plain Iterator: next, nth, skip, step_by, last and their
